@@ -13,7 +13,8 @@ NOTE = ("Trusted: go/packages + go/ssa builder, the executor's semantics of ~35 
 
 CLAIMS = {
     "C01": ("every explicit panic, every implicit run-time panic site (nil deref, index/slice bounds, nil map write, div by zero, failed type assertion) and every "
-            "loop/recursion budget reachable from autog.Layout is a solver query per cube; unsat = unreachable for all sizes/spacings/RNG picks within the bound", "5 C01"),
+            "loop/recursion budget reachable from autog.Layout is a solver query per cube; unsat = unreachable for all sizes/spacings/RNG picks within the bound; plus the real "
+            "phase1.Process with panic queries on a multigraph cube family (parallel copies, up to 7/8 edges)", "5 C01"),
     "C02": ("output node/edge multisets and sizes compared with the input for all symbolic sizes and the four size-option modes", "5 C02"),
     "C03": ("band separation, downward flow and ArrowHeadStart <=> upward asserted on the returned coordinates for all symbolic sizes/spacings; plus in-package network-simplex "
             "obligations from symbolic pre-states (pivot lemma, normalize+vbalance lemma, whole run with symbolic minimum lengths): every edge keeps its minimum length", "4 C03"),
@@ -25,13 +26,16 @@ CLAIMS = {
     "C08": ("relational: the solver chooses an injective renaming from an adversarial alphabet; both runs (incl. their panic behaviour) must agree", "5 C08"),
     "C09": ("relational: Layout(union) vs Layout(component) for every component, translation and side-by-side extents asserted symbolically", "5 C09"),
     "C10": ("the solver searches for a cheaper feasible layering (alt[i] symbolic) of the drawn orientation; unsat = optimal; contiguity asserted; plus in-package pivot lemma "
-            "(arbitrary feasible tight spanning tree, symbolic layering / tree / lengths / weights) and whole network simplex with symbolic minimum lengths", "4 C10"),
-    "C11": ("bands compared with an independent longest-path computation on the drawn orientation", "5 C11"),
+            "(arbitrary feasible tight spanning tree, symbolic layering / tree / lengths / weights; incl. 'stored cut values equal their definition after the pivot') and whole "
+            "network simplex with symbolic minimum lengths", "4 C10"),
+    "C11": ("bands compared with an independent longest-path computation on the drawn orientation; plus the real LongestPath.Process on DAG cubes with a solver-chosen "
+            "IsReversed flag per edge", "5 C11"),
     "C12": ("monitor value vs crossings recounted from the returned route points for all symbolic widths/spacings (incl. 70-layer graphs); plus the real crossing counter vs the naive "
-            "count with solver-chosen in-layer permutations and a symbolic layer index 0..100", "4 C12"),
-    "C13": ("crossings recounted from the returned route points of every rooted tree in every edge order, symbolic widths/spacings", "5 C13"),
+            "count with solver-chosen in-layer permutations and a symbolic layer index 0..100; plus the real weighted-median ordering on arbitrary layered graphs (cubes)", "4 C12"),
+    "C13": ("crossings recounted from the returned route points of every rooted tree in every edge order, symbolic widths/spacings; plus the real weighted-median ordering on "
+            "layered trees (cubes)", "5 C13"),
     "C14": ("phase1.Process driven in-package: result acyclic, acyclic input => nothing reversed, DFS reversed set irredundant (closure spec); edge endpoints "
-            "symbolic at the smallest bound, one symbolic tail edge / cubes beyond", "5 C14"),
+            "symbolic at the smallest bound, one symbolic tail edge / cubes beyond, incl. a multigraph cube family with up to 7/8 edges", "5 C14"),
     "C16": ("band extent / midpoint / right-end identities asserted on the returned coordinates incl. helper nodes, symbolic sizes/spacings", "5 C16"),
     "C17": ("relational: layout of (sizes, spacings) vs layout of 2^k * (sizes, spacings) for symbolic sizes/spacings", "5 C17"),
     "C18": ("layout with vs. without monitor; all histories of k calls (panicking / normal, with / without monitor) with the engine's panic+defer semantics", "5 C18"),
